@@ -465,7 +465,7 @@ impl Prop for C14 {
             assumptions: vec!["one generated input set (20 messages, 4 files); lifecycle ids of the CLI are assumed to count from 1 in creation order in a fresh process".into()],
             budget_s: (150, 1500),
             workers: 1,
-            required_landmarks: vec!["window", "lcs", "eac", "ffile_dlf", "ffile_conv", "ffile_dlf_marker", "sort", "o_file", "perm", "empty_selection", "nonempty_selection", "export_twice"],
+            required_landmarks: vec!["window", "lcs", "eac", "ffile_dlf", "ffile_conv", "ffile_dlf_marker", "sort", "o_file", "perm", "empty_selection", "nonempty_selection", "export_twice", "large_input"],
         }
     }
     fn prepare(&self, _t: Tier) -> Result<(), String> {
@@ -557,6 +557,21 @@ impl Prop for C14 {
             }
         }
         ctx.end_family(true);
+        // inputs larger than the reader's buffer: a maximum-size message at every buffered-byte count around the low
+        // mark of convert's file reader (the option product above runs on small files only)
+        let (lo, hi) = ctx.tier.pick((65_525usize, 65_565usize), (65_400usize, 65_700usize));
+        ctx.begin_family("large_input", &format!("convert -o on 600 KB normal-form files with a maximum-size message starting where {lo}..={hi} bytes of the first 512 KiB are left: every message emitted, output identical"));
+        for in_buf in lo..=hi {
+            if ctx.mine() {
+                let cj = || json!({"family": "large_input", "window_in_buf": in_buf});
+                ctx.landmark("large_input");
+                if let Err(e) = crate::c02::cli_window_export(&w.dir, in_buf, 65535) {
+                    ctx.violation("large_input", "window", cj, e);
+                }
+                ctx.eval(true);
+            }
+        }
+        ctx.end_family(true);
         let _ = std::fs::remove_dir_all(&w.dir);
     }
     fn replay(&self, case: &Value, ctx: &mut Ctx) {
@@ -565,6 +580,14 @@ impl Prop for C14 {
             return;
         }
         let w = World::build();
+        if case["family"] == "large_input" {
+            if let Err(e) = crate::c02::cli_window_export(&w.dir, case["window_in_buf"].as_u64().unwrap_or(65540) as usize, 65535) {
+                ctx.violation("large_input", "window", || case.clone(), e);
+            }
+            ctx.eval(true);
+            let _ = std::fs::remove_dir_all(&w.dir);
+            return;
+        }
         let c = cfg_from_json(case);
         for (cl, d, detail) in run_cfg(&w, &c, 0) {
             ctx.violation(&cl, &d, || case.clone(), detail);
